@@ -424,6 +424,7 @@ def ownerStep (src : Source) (ids : List Nat) (g : Nat) : QR Child :=
 
 /-- `query_by_interval_guids` (kinds = all three) and its typed variants. -/
 def queryByIntervalGuids (src : Source) (kinds : List Kind) (ids : List Nat) : QR Result := do
+  checkSource src                                       -- the collection exists before it is queried
   let kept ← mapQ (ownerStep src ids) (ownerGuidsOf src kinds ids)
   returnForIdQueries src kept
 
